@@ -771,8 +771,12 @@ def rule_yaml_pairing(ctx, rid):
                 continue
             ret = e.value
             rname_var = None
-            st = simplify(substitute(e.state.env.get('ret.store', S('?unset')), mp))
-            ty = simplify(substitute(e.state.env.get('ret.sift_type', S('?unset')), mp))
+            # the attributes set on the object that is returned, whatever the local variable holding it is called
+            holders = [k_ for k_, v_ in e.state.env.items() if '.' not in k_ and v_ == ret
+                       and (k_ + '.store') in e.state.env] or ['ret']
+            hn = holders[0]
+            st = simplify(substitute(e.state.env.get(hn + '.store', S('?unset')), mp))
+            ty = simplify(substitute(e.state.env.get(hn + '.sift_type', S('?unset')), mp))
             ok = (st == STORE and ty == T)
             verdicts.append((ok, 'store <- %s, sift_type <- %s' % (show(st)[:60], show(ty)[:40])))
         c = '%s: %s/%s recover sift_type and the option store' % (route, wname, rname)
